@@ -332,9 +332,12 @@ def calls_in(func_node) -> List[ast.Call]:
     return [n for n in own_nodes(func_node) if isinstance(n, ast.Call)]
 
 
+_CTX = __import__("re").compile(r",? ?(Load|Store|Del)\(\)")
+
+
 def norm(node) -> str:
-    """Position-free structural dump."""
-    return ast.dump(node, annotate_fields=False, include_attributes=False)
+    """Position-free, context-free structural dump."""
+    return _CTX.sub("", ast.dump(node, annotate_fields=False, include_attributes=False))
 
 
 def src(node) -> str:
